@@ -365,7 +365,8 @@ class Formatter(BasicWalker[Retype]):
             "(",
             *self._format_args(node.parameters),
             ")",
-            *self.visit(node.body)[1:],
+            # the body may be a chunk (an inlined file), it still needs its `end`
+            *self.visit_Block(node.body)[1:],
             Separators.Block,
             Separators.Newline,
         ]
@@ -455,7 +456,8 @@ class Formatter(BasicWalker[Retype]):
             "(",
             *self._format_args(node.parameters),
             ")",
-            *self.visit(node.body)[1:],
+            # the body may be a chunk (an inlined file), it still needs its `end`
+            *self.visit_Block(node.body)[1:],
         ]
 
     def visit_ExpMethodInvocation(self, node: ExpMethodInvocation) -> Retype:
@@ -477,7 +479,8 @@ class Formatter(BasicWalker[Retype]):
             "(",
             *self._format_args(node.parameters),
             ")",
-            *self.visit(node.body)[1:],
+            # the body may be a chunk (an inlined file), it still needs its `end`
+            *self.visit_Block(node.body)[1:],
             Separators.Statement,
             Separators.Newline,
         ]
